@@ -2,6 +2,7 @@
 import copy
 import json
 from .common import *  # noqa
+import transforms as TR
 
 KEYS = {"comp_rates", "flow_rates", "outputs", "comps", "flows"}
 # observations whose model value is the property's specified value (a disagreement there is a failing input);
@@ -118,6 +119,12 @@ def run(tier, seed):
                           "h": r.choice(["1/4", "1/8", "1/2"]), "kind_pool": ["transition", "transition", "death"], "p_udeath": 0.3})
         if not any(o["op"] == "flow" and o["kind"] == "infection_frequency" for o in base["ops"]):
             continue
+        if i % 2 == 1 and TR.scalable(base) and not any(o["op"] == "flow" and o["kind"] == "infection_density" for o in base["ops"]):
+            # populations given as proportions (the whole population adds up to about one, every mixing category holds
+            # less than one): frequency-dependent transmission does not depend on the unit of the counts
+            tot_ = sum((gen.Fraction(v) for o in base["ops"] if o["op"] == "pop" for v in o["dist"].values()), gen.Fraction(0))
+            k_ = gen.Fraction(1, 1 << max(1, int(tot_).bit_length()))
+            base = dict(TR.scale_population(base, str(k_), False), meta=base.get("meta", {}), nonlinear=base.get("nonlinear"))
         base["ops"] += [{"op": "req", "name": "allcomp", "save": True, "req": {"type": "comp", "names": list(base["comps"]), "filt": {}}}]
         strata = r.choice([["lo", "hi"], ["a1", "a2", "a3"]])
         split = r.choice([["1/4", "3/4"], ["1/8", "7/8"], ["5/8", "3/8"]]) if len(strata) == 2 else r.choice([["1/8", "1/8", "3/4"], ["1/2", "1/4", "1/4"]])
